@@ -29,6 +29,9 @@ struct RInfo {
     owned: bool,
     tag: u8,
     kind: &'static str,
+    /// Xen grant region mapped on demand: no stable host pointer, every access maps and unmaps
+    /// a temporary window
+    ondemand: bool,
 }
 
 enum Owner {
@@ -81,8 +84,20 @@ impl World {
                 expected.push(r.id);
             }
         }
+        let mut temps: Vec<(usize, usize)> = Vec::new();
         for e in log {
+            if let Ev::Mmap { ret, len, .. } = e {
+                if *ret != usize::MAX {
+                    // a temporary window of an access to an on-demand region
+                    temps.push((*ret, *len));
+                }
+            }
             if let Ev::Munmap { addr, len, ret } = e {
+                if let Some(p) = temps.iter().position(|x| x.0 == *addr && x.1 == *len) {
+                    ensure!(*ret == 0, "{}: munmap of a temporary window failed", what);
+                    temps.remove(p);
+                    continue;
+                }
                 let hit = self.regions.iter().find(|r| r.host == *addr && !self.unmapped[r.id] || (r.host < addr + len && *addr < r.host + r.map_len && !self.unmapped[r.id]));
                 match hit {
                     Some(r) => {
@@ -108,6 +123,7 @@ impl World {
             }
         }
         ensure!(expected.is_empty(), "{}: regions {:?} lost their last owner but were not unmapped (leak); log {:x?}", what, expected, log);
+        ensure!(temps.is_empty(), "{}: mappings {:x?} were created and not released", what, temps);
         Ok(())
     }
 
@@ -121,12 +137,21 @@ impl World {
                         let b: u8 = m.read_obj(GuestAddress(a)).map_err(|e| format!("owner {}: region {} no longer readable at {:#x}: {:?}", oi, rid, a, e))?;
                         ensure!(b == r.tag, "owner {}: region {} reads {:#04x} at {:#x}, tag is {:#04x}", oi, rid, b, a, r.tag);
                     }
+                    if r.size >= 4 {
+                        let v: u32 = m.load(GuestAddress(r.start), std::sync::atomic::Ordering::Relaxed).map_err(|e| format!("owner {}: region {} atomic load: {:?}", oi, rid, e))?;
+                        ensure!(v == u32::from_ne_bytes([r.tag; 4]), "owner {}: region {} atomic load reads {:#x}, tag is {:#04x}", oi, rid, v, r.tag);
+                    }
                 }
                 Ok(())
             };
             match o {
                 Owner::Handle(h, rid) => {
                     let r = &self.regions[*rid];
+                    if r.ondemand {
+                        let b: u8 = h.read_obj(vm_memory::MemoryRegionAddress(r.size as u64 - 1)).map_err(|e| format!("handle of region {}: {:?}", rid, e))?;
+                        ensure!(b == r.tag, "handle of region {} reads {:#04x}, tag {:#04x}", rid, b, r.tag);
+                        continue;
+                    }
                     ensure!(h.as_ptr() as usize == r.host, "handle of region {} points elsewhere", rid);
                     // SAFETY: the handle keeps the mapping alive (that is what is being checked;
                     // a wrong early unmap faults here and is attributed to the case by the driver).
@@ -217,7 +242,7 @@ fn create_region(w: &mut World, t: &mut Tape, cx: &mut Cx) -> Result<Reg, String
     // SAFETY: fresh mapping of `size` bytes.
     unsafe { std::ptr::write_bytes(host as *mut u8, tag, size) };
     let r = GuestRegionMmap::new(mapping, GuestAddress(start)).map_err(|e| format!("{:?}", e))?;
-    w.regions.push(RInfo { id, start, size, map_len: size, host, owned, tag, kind: kname });
+    w.regions.push(RInfo { id, start, size, map_len: size, host, owned, tag, kind: kname, ondemand: false });
     w.unmapped.push(false);
     Ok(Arc::new(r))
 }
@@ -226,10 +251,11 @@ fn create_region(w: &mut World, t: &mut Tape, cx: &mut Cx) -> Result<Reg, String
 fn create_region(w: &mut World, t: &mut Tape, cx: &mut Cx) -> Result<Reg, String> {
     use crate::xen_emul::{build as xbuild, Kind as XKind};
     let id = w.regions.len();
-    let size = t.pick(&[1usize, PS, PS + 1, 2 * PS, 3 * PS - 1, 100]);
+    let size = t.pick(&[1usize, PS, PS + 1, 2 * PS, 3 * PS - 1, 100, 0x800]);
     let start = 0x10_0000 * (id as u64 + 1);
     let tag = 0x21 + id as u8;
-    let (r, map_len, kname): (GuestRegionMmap<()>, usize, &'static str) = match t.below(5) {
+    let mut ondemand = false;
+    let (r, map_len, kname): (GuestRegionMmap<()>, usize, &'static str) = match t.below(7) {
         0 => (GuestRegionMmap::<()>::from_range(GuestAddress(start), size, None).map_err(|e| format!("{:?}", e))?, size, "xen-unix anonymous"),
         1 => {
             let file = Some(FileOffset::new(memfd((size.div_ceil(PS) * PS) as u64), 0));
@@ -239,15 +265,31 @@ fn create_region(w: &mut World, t: &mut Tape, cx: &mut Cx) -> Result<Reg, String
             cx.nt("xen_foreign_region");
             (xbuild::<()>(XKind::Foreign, start, size)?.region, size.div_ceil(PS) * PS, "xen-foreign")
         }
-        _ => {
+        3 | 4 => {
             cx.nt("xen_grant_region");
             (xbuild::<()>(XKind::GrantAdvance, start, size)?.region, size.div_ceil(PS) * PS, "xen-grant (mapped in advance)")
         }
+        _ => {
+            cx.nt("xen_on_demand_region");
+            ondemand = true;
+            let xr = xbuild::<()>(XKind::GrantOnDemand, start, size)?;
+            xr.raw_write(&vec![tag; size]);
+            (xr.region, 0, "xen-grant (mapped on demand)")
+        }
     };
-    let host = r.as_ptr() as usize;
-    // SAFETY: fresh mapping.
-    unsafe { std::ptr::write_bytes(host as *mut u8, tag, size) };
-    w.regions.push(RInfo { id, start, size, map_len, host, owned: true, tag, kind: kname });
+    if ondemand {
+        // whatever the library mapped while creating the region and kept is memory mapped on
+        // behalf of the region (normally nothing)
+        let kept = interpose::live_after(&interpose::peek());
+        ensure!(kept.len() <= 1, "creating an on-demand region left {} mappings", kept.len());
+        let (host, map_len) = kept.first().copied().unwrap_or((0, 0));
+        w.regions.push(RInfo { id, start, size, map_len, host, owned: map_len != 0, tag, kind: kname, ondemand });
+    } else {
+        let host = r.as_ptr() as usize;
+        // SAFETY: fresh mapping.
+        unsafe { std::ptr::write_bytes(host as *mut u8, tag, size) };
+        w.regions.push(RInfo { id, start, size, map_len, host, owned: true, tag, kind: kname, ondemand });
+    }
     w.unmapped.push(false);
     Ok(Arc::new(r))
 }
@@ -454,7 +496,11 @@ fn run(t: &mut Tape, cx: &mut Cx) -> Result<(), String> {
         note!(cx, "{}", what);
         let log = interpose::end();
         w.settle(&log, &format!("step {} ({})", step, what))?;
-        w.read_tags().map_err(|e| format!("after step {} ({}): {}", step, what, e))?;
+        interpose::begin();
+        let rt = w.read_tags();
+        let log = interpose::end();
+        rt.map_err(|e| format!("after step {} ({}): {}", step, what, e))?;
+        w.settle(&log, &format!("reading through every owner after step {} ({})", step, what))?;
     }
     // every live owned region must still be mapped; then drop everything and expect no leak
     for r in &w.regions {
